@@ -624,7 +624,7 @@ pub fn run(mut rep: Report) -> i32 {
     let ps = parts(thorough, false);
     for (i, p) in ps.iter().enumerate() {
         if part_selected(p.name) {
-            set_deadline(thorough, (i + 1) as f64 / ps.len() as f64);
+            set_deadline(thorough, 1.0, (ps.len() - i) as f64);
             run_part::<()>(&mut rep, p);
         }
     }
